@@ -59,19 +59,36 @@ def t_str(t):
 from ..syminterp import Sym as _Sym
 
 
+class _Cell:
+    """one element of an exact array: slices and reshapes of an array are views that hold the same cells, copies hold new ones"""
+    __slots__ = ("v",)
+
+    def __init__(self, v):
+        self.v = v
+
+
 class XArr(_Sym):
-    """exact (Fraction) 1-d / 2-d array with the numpy operations runge_kutta_ti_coefficient uses: basic indexing and slicing (get / set with broadcasting), dot, ndim, shape"""
-    def __init__(self, data):
+    """exact (Fraction) 1-d / 2-d array with the numpy operations runge_kutta_ti_coefficient uses: basic indexing and slicing (get / set with broadcasting; a slice is a
+    view: writing through it changes the array it was taken from), dot, ndim, shape"""
+    def __init__(self, data, _cells=False):
         super().__init__("array")
-        self.d = data      # list (1-d) or list of lists (2-d)
+        if _cells:
+            self._c = data
+        else:
+            self._c = [[_Cell(x) for x in r] for r in data] if data and isinstance(data[0], list) else [_Cell(x) for x in data]
+
+    @property
+    def d(self):
+        """plain values (a snapshot)"""
+        return [[c.v for c in r] for r in self._c] if self.ndim == 2 else [c.v for c in self._c]
 
     @property
     def ndim(self):
-        return 2 if self.d and isinstance(self.d[0], list) else 1
+        return 2 if self._c and isinstance(self._c[0], list) else 1
 
     @property
     def shape(self):
-        return (len(self.d), len(self.d[0])) if self.ndim == 2 else (len(self.d),)
+        return (len(self._c), len(self._c[0])) if self.ndim == 2 else (len(self._c),)
 
     @staticmethod
     def _idx(k, n):
@@ -82,65 +99,73 @@ class XArr(_Sym):
 
     def __getitem__(self, k):
         if self.ndim == 1:
-            return XArr(self.d[k]) if isinstance(k, slice) else self.d[k]
+            if isinstance(k, slice):
+                return XArr([self._c[i] for i in self._idx(k, len(self._c))], _cells=True)
+            return self._c[int(k)].v
         if not isinstance(k, tuple):
             k = (k, slice(None))
-        r, c = self._idx(k[0], len(self.d)), self._idx(k[1], len(self.d[0]))
-        sub = [[self.d[i][j] for j in c] for i in r]
+        r, c = self._idx(k[0], len(self._c)), self._idx(k[1], len(self._c[0]))
+        sub = [[self._c[i][j] for j in c] for i in r]
         if not isinstance(k[0], slice) and not isinstance(k[1], slice):
-            return sub[0][0]
+            return sub[0][0].v
         if not isinstance(k[0], slice):
-            return XArr(sub[0])
+            return XArr(sub[0], _cells=True)
         if not isinstance(k[1], slice):
-            return XArr([x[0] for x in sub])
-        return XArr(sub)
+            return XArr([x[0] for x in sub], _cells=True)
+        return XArr(sub, _cells=True)
 
     def __setitem__(self, k, v):
         if self.ndim == 1:
-            idx = self._idx(k, len(self.d))
+            idx = self._idx(k, len(self._c))
             vals = v.d if isinstance(v, XArr) else [v] * len(idx)
             if len(vals) != len(idx):
                 raise ValueError(f"could not broadcast input array from shape ({len(vals)},) into shape ({len(idx)},)")
             for i, x in zip(idx, vals):
-                self.d[i] = F(x)
+                self._c[i].v = F(x)
             return
         if not isinstance(k, tuple):
             k = (k, slice(None))
-        r, c = self._idx(k[0], len(self.d)), self._idx(k[1], len(self.d[0]))
+        r, c = self._idx(k[0], len(self._c)), self._idx(k[1], len(self._c[0]))
         if isinstance(v, XArr) and v.ndim == 2:
             if v.shape != (len(r), len(c)):
                 raise ValueError(f"could not broadcast input array from shape {v.shape} into shape {(len(r), len(c))}")
+            vd = v.d
             for a_, i in enumerate(r):
                 for b_, j in enumerate(c):
-                    self.d[i][j] = F(v.d[a_][b_])
+                    self._c[i][j].v = F(vd[a_][b_])
         elif isinstance(v, XArr):
-            tgt = c if len(r) == 1 or isinstance(k[1], slice) and not isinstance(k[0], slice) else r
-            if len(v.d) != (len(c) if len(r) == 1 else len(r) if len(c) == 1 else -1):
-                raise ValueError(f"could not broadcast input array from shape ({len(v.d)},) into shape {(len(r), len(c))}")
-            for a_, x in enumerate(v.d):
-                if len(r) == 1:
-                    self.d[r[0]][c[a_]] = F(x)
-                else:
-                    self.d[r[a_]][c[0]] = F(x)
+            vd = v.d
+            if len(vd) != (len(c) if len(r) == 1 else len(r) if len(c) == 1 else (len(c) if isinstance(k[0], slice) and isinstance(k[1], slice) else -1)):
+                raise ValueError(f"could not broadcast input array from shape ({len(vd)},) into shape {(len(r), len(c))}")
+            if len(r) == 1:
+                for a_, x in enumerate(vd):
+                    self._c[r[0]][c[a_]].v = F(x)
+            elif len(c) == 1:
+                for a_, x in enumerate(vd):
+                    self._c[r[a_]][c[0]].v = F(x)
+            else:
+                for i in r:                       # a row vector broadcast over the rows of a block
+                    for a_, x in enumerate(vd):
+                        self._c[i][c[a_]].v = F(x)
         else:
             for i in r:
                 for j in c:
-                    self.d[i][j] = F(v)
+                    self._c[i][j].v = F(v)
 
     def astype(self, *a, **k):
         return self
 
     def copy(self):
-        return XArr([list(r) for r in self.d] if self.ndim == 2 else list(self.d))
+        return XArr(self.d)
 
     def reshape(self, *shape):
         shape = list(shape[0]) if len(shape) == 1 and isinstance(shape[0], (list, tuple)) else list(shape)
-        flat = [x for r in self.d for x in r] if self.ndim == 2 else list(self.d)
+        flat = [x for r in self._c for x in r] if self.ndim == 2 else list(self._c)
         if len(shape) == 1:
             n_ = len(flat) if shape[0] == -1 else int(shape[0])
             if n_ != len(flat):
                 raise ValueError(f"cannot reshape array of size {len(flat)} into shape {tuple(shape)}")
-            return XArr(flat)
+            return XArr(flat, _cells=True)
         if len(shape) != 2:
             raise ValueError("reshape to more than two dimensions is not modelled")
         r_, c_ = shape
@@ -152,22 +177,23 @@ class XArr(_Sym):
             c_ = len(flat) // int(r_)
         if int(r_) * int(c_) != len(flat):
             raise ValueError(f"cannot reshape array of size {len(flat)} into shape {tuple(shape)}")
-        return XArr([flat[i * int(c_):(i + 1) * int(c_)] for i in range(int(r_))])
+        return XArr([flat[i * int(c_):(i + 1) * int(c_)] for i in range(int(r_))], _cells=True)
 
     def tolist(self):
-        return [list(r) for r in self.d] if self.ndim == 2 else list(self.d)
+        return self.d
 
     def dot(self, o):
+        sd, od = self.d, o.d
         if self.ndim == 1 and o.ndim == 2:
-            if len(self.d) != o.shape[0]:
-                raise ValueError(f"shapes ({len(self.d)},) and {o.shape} not aligned")
-            return XArr([sum(self.d[i] * o.d[i][j] for i in range(len(self.d))) for j in range(o.shape[1])])
+            if len(sd) != o.shape[0]:
+                raise ValueError(f"shapes ({len(sd)},) and {o.shape} not aligned")
+            return XArr([sum(sd[i] * od[i][j] for i in range(len(sd))) for j in range(o.shape[1])])
         if self.ndim == 2 and o.ndim == 2:
             if self.shape[1] != o.shape[0]:
                 raise ValueError(f"shapes {self.shape} and {o.shape} not aligned")
-            return XArr([[sum(self.d[i][q] * o.d[q][j] for q in range(o.shape[0])) for j in range(o.shape[1])] for i in range(self.shape[0])])
+            return XArr([[sum(sd[i][q] * od[q][j] for q in range(o.shape[0])) for j in range(o.shape[1])] for i in range(self.shape[0])])
         if self.ndim == 1 and o.ndim == 1:
-            return sum(x * y for x, y in zip(self.d, o.d))
+            return sum(x * y for x, y in zip(sd, od))
         raise ValueError("dot of these ranks is not modelled")
 
 
